@@ -67,19 +67,33 @@ def leaf_ranges(job, bufname):
 
 def main(tier):
     rep = vlib.Report("C08", tier)
-    sets = ["44", "65", "87"]  # cheap: always all three
-    obligations = discharged = 0
-    samples = []
-    n_classes = 0
+    cnt = [0, 0]
 
     def ob(ok, key, detail):
-        nonlocal obligations, discharged
-        obligations += 1
+        cnt[0] += 1
         if ok:
-            discharged += 1
+            cnt[1] += 1
         else:
             rep.violation(key, detail)
 
+    samples, n_classes = analyse(rep, ob, ["44", "65", "87"])  # cheap: always all three
+    cov = {
+        "obligations": cnt[0], "discharged": cnt[1],
+        "checker_cmd": "python3 bin/check C08 (driver ai mode on abstract input classes + slice-range probes)",
+        "trusted_base": ["abstract interpreter soundness", "lib/hintclasses.py expected verdicts follow FIPS 204 Alg. 21"],
+        "samples": samples, "hint_classes": n_classes,
+        "exhaustive": False,
+        "explanation": "each class is decided for all its members; the family covers the malformation taxonomy at first/middle/last positions but is not a partition of all byte strings",
+    }
+    return rep.finish("other", cov, ["class family is a cover of the taxonomy, not of all inputs", "re-encode identity not decided"])
+
+
+def analyse(rep, ob, sets, rules=("R1", "R2", "R3"), prefix="", codecs=("sig", "pk", "sk")):
+    if prefix:
+        ob0 = ob
+        ob = lambda ok, key, detail: ob0(ok, prefix + key, detail)
+    samples = []
+    n_classes = 0
     jobs = {}
     fams = {}
     for s in sets:
@@ -115,7 +129,7 @@ def main(tier):
             vlib.fail_closed(rep, "unmodelled:%s" % s, {"unmodelled": r["unmodelled"], "unsupported": r["unsupported"]})
         byid = {j["id"]: j for j in r["jobs"]}
         # R1
-        for cid, kind, ov in fams[s]:
+        for cid, kind, ov in (fams[s] if "R1" in rules else []):
             j = byid["%s:hint:%s" % (s, cid)]
             if j.get("error") or j.get("over_budget") or not isinstance(j.get("result"), dict):
                 vlib.fail_closed(rep, "job:%s:%s" % (s, cid), j.get("error") or "no result")
@@ -134,7 +148,7 @@ def main(tier):
                 samples.append({"set": s, "class": cid, "expected": kind, "pinned_bytes": {str(p): list(v) for p, v in sorted(ov.items())[:8]}, "abstract_result": j["partitions"]})
         # R2
         exp = expected_layouts(P)
-        for what, buf_enc, buf_dec in (("sig", ".sigma", "in.sigma"), ("pk", ".pk", "in.pk"), ("sk", ".sk", "in.sk")):
+        for what, buf_enc, buf_dec in [x for x in (("sig", ".sigma", "in.sigma"), ("pk", ".pk", "in.pk"), ("sk", ".sk", "in.sk")) if "R2" in rules and x[0] in codecs]:
             je, jd = byid.get("%s:layout:%s_encode" % (s, what)), byid.get("%s:layout:%s_decode" % (s, what))
             if not je or not jd or je.get("error") or jd.get("error"):
                 vlib.fail_closed(rep, "job:layout:%s:%s" % (s, what), (je or {}).get("error") or (jd or {}).get("error"))
@@ -147,7 +161,7 @@ def main(tier):
             if len(samples) < 9:
                 samples.append({"set": s, "codec": what, "ranges": le[:8], "total_len": total})
         # R3
-        for nm, a, b in (("eta", P["eta"], P["eta"]), ("t0", (1 << 12) - 1, 1 << 12), ("z", P["gamma1"] - 1, P["gamma1"]), ("t1", 0, 1023)):
+        for nm, a, b in () if "R3" not in rules else (("eta", P["eta"], P["eta"]), ("t0", (1 << 12) - 1, 1 << 12), ("z", P["gamma1"] - 1, P["gamma1"]), ("t1", 0, 1023)):
             j = byid["%s:unpack:%s" % (s, nm)]
             pr = [p for p in j["probes"] if p["what"] == "ret" and p["inst"] == "conversion::bit_unpack"]
             if not pr:
@@ -169,18 +183,10 @@ def main(tier):
             elif w is not None:
                 wr = w.get("int") if isinstance(w, dict) else None
                 ob(wr is not None and (wr[1] < -a or wr[0] > b), "R3:reject-witness:%s" % nm, {"rule": "R3 rejected elements lie outside [-a, b]", "set": s, "rejecting_interval": wr})
-        bad = [x for x in r["sites"] if x["violated"] and x["inst"].startswith("conversion::hint_bit_unpack") and "too many 1's" not in x.get("msg", "")]
+        bad = [] if "R1" not in rules else [x for x in r["sites"] if x["violated"] and x["inst"].startswith("conversion::hint_bit_unpack") and "too many 1's" not in x.get("msg", "")]
         for x in bad:
             ob(False, "R1:obligation:" + aicheck.stable_key(x), aicheck.site_report(x))
-    cov = {
-        "obligations": obligations, "discharged": discharged,
-        "checker_cmd": "python3 bin/check C08 (driver ai mode on abstract input classes + slice-range probes)",
-        "trusted_base": ["abstract interpreter soundness", "lib/hintclasses.py expected verdicts follow FIPS 204 Alg. 21"],
-        "samples": samples, "hint_classes": n_classes,
-        "exhaustive": False,
-        "explanation": "each class is decided for all its members; the family covers the malformation taxonomy at first/middle/last positions but is not a partition of all byte strings",
-    }
-    return rep.finish("other", cov, ["class family is a cover of the taxonomy, not of all inputs", "re-encode identity not decided"])
+    return samples, n_classes
 
 
 if __name__ == "__main__":
